@@ -845,6 +845,8 @@ FAMS = {
            "WU: three relations, each [user] | [doc#y, user:*] | [employee:*, doc#y], optionally `or y` / `or z` (tuple cycles through several union nodes with public types found above them; 729 models)"),
     "S1": ({"R": 2, "SINGLE0": 1, "DUPTHIS0": 1, "L10": M(0, 1, 4, 16, 19), "L20": M(16, 19), "L11": M(0, 4, 16)},
            "S1: a = leaf | leaf op second | union(leaf) | intersection(leaf) | union(union(leaf)) | union(leaf) op second (operators with ONE operand) | this op this (the direct assignment twice) - JSON-only shapes, b = [user] | [doc#a] | a"),
+    "NC": ({"R": 2, "L10": M(0, 14, 24), "L11": M(0)},
+           "NC: a = [user] | [user, user, user with k] | [user, user with none] (a condition named like the unconditioned marker), b = [user]"),
     "E0": ({"R": 2, "L10": M(0, 23), "L20": M(16), "REV0": 1, "L11": M(0, 1)},
            "E0: a = [user] | [] | ([user] | []) op b | b op ([user] | []) with [] a direct assignment without type restrictions (JSON only), b = [user] | [user, employee]"),
     "L": ({"R": 3, "L10": M(0, 4, 5, 9, 10, 16), "L11": M(0, 4, 5, 9, 10, 16, 17), "L12": M(0, 4, 5, 9, 10, 16, 17), "L22": M(16, 17), "OP2": 3},
@@ -908,7 +910,7 @@ def c06(tier):
 
 
 def c10(tier):
-    graph_check("C10", 10, tier, [("B", *FI), ("P", *FI), ("J", *FI), ("J4", *FI), ("J5", *FI), ("J6", *FI), ("K", *FI), ("H", *FI), ("G", *FI), ("Q", *FI), ("Q2", *FI), ("S1", *FI), ("W", *FI)], [("D", *FI), ("E", *FI), ("P", *RA), ("L", *FI), ("G", *FI), ("H", *FI), ("J", *FI), ("K", *FI)])
+    graph_check("C10", 10, tier, [("B", *FI), ("P", *FI), ("J", *FI), ("J4", *FI), ("J5", *FI), ("J6", *FI), ("K", *FI), ("H", *FI), ("G", *FI), ("Q", *FI), ("Q2", *FI), ("S1", *FI), ("W", *FI), ("NC", *FI)], [("D", *FI), ("E", *FI), ("P", *RA), ("L", *FI), ("G", *FI), ("H", *FI), ("J", *FI), ("K", *FI)])
 
 
 def c11(tier):
